@@ -64,6 +64,9 @@ type c15Case struct {
 	BackendCoalesce bool     `json:"backend_coalesce"`
 	C2S             []c15Pkt `json:"c2s"`
 	S2C             []c15Pkt `json:"s2c"`
+	// ClientSecret: 16 bytes = the client connection is encrypted as for an
+	// online-mode player (see c15RigOpts.ClientSecret); empty = plain
+	ClientSecret []byte `json:"client_secret,omitempty"`
 }
 
 var (
@@ -267,6 +270,9 @@ func c15Gen(t *rapid.T) c15Case {
 		ClientCoalesce:  rapid.Bool().Draw(t, "client_coalesce"),
 		BackendCoalesce: rapid.Bool().Draw(t, "backend_coalesce"),
 	}
+	if rapid.IntRange(0, 2).Draw(t, "encrypted") == 0 {
+		c.ClientSecret = rapid.SliceOfN(rapid.Byte(), 16, 16).Draw(t, "client_secret")
+	}
 	if c.Protocol < 47 {
 		c.ClientThr, c.BackendThr = -1, -1
 	}
@@ -325,13 +331,17 @@ func c15Run(c c15Case) verifkit.Result {
 		ClientLevel: c.ClientLevel, BackendLevel: c.BackendLevel,
 		ClientChunk: c.ClientChunk, BackendChunk: c.BackendChunk,
 		ClientCoalesce: c.ClientCoalesce, BackendCoalesce: c.BackendCoalesce,
-		Backends: []c15BackendSpec{{Name: "alpha", Scripts: []c15Script{{Thr: c.BackendThr}}}},
-		Try:      []string{"alpha"},
+		Backends:     []c15BackendSpec{{Name: "alpha", Scripts: []c15Script{{Thr: c.BackendThr}}}},
+		Try:          []string{"alpha"},
+		ClientSecret: c.ClientSecret,
 	})
 	if err != nil {
 		return verifkit.Fail("harness:rig", "%v", err)
 	}
 	res := c15RunOn(rig, c, pr, unregC2S, unregS2C)
+	if len(c.ClientSecret) == 16 {
+		res.Labels = append(res.Labels, "client-connection-encrypted")
+	}
 	if leak := rig.close(); leak != "" && res.V == nil {
 		if c15DebugLeak {
 			return verifkit.Fail("debug:leak", "%s", leak)
@@ -532,6 +542,6 @@ func c15RunOn(rig *c15Rig, c c15Case, pr proto.Protocol, unregC2S, unregS2C []in
 
 func TestVerif_C15(t *testing.T) {
 	verifkit.Check(t, "C15", "relay",
-		"one session per case through the real Proxy.HandleConn: protocol from {1.8,1.12.2,1.16.5,1.20.1,1.20.2..26.2}, independent client/backend compression thresholds and zlib levels, chunked/coalesced writes, 1-70 packets per direction (unregistered ids, KeepAlive/BossBar/BundleDelimiter/ClientSettings pass-through; payload sizes 0..2^21-2 boundary-biased around both thresholds); non-trivial: >=10 packets in each direction, compression on at least one side and a payload at or above every enabled threshold",
+		"one session per case through the real Proxy.HandleConn: protocol from {1.8,1.12.2,1.16.5,1.20.1,1.20.2..26.2}, independent client/backend compression thresholds and zlib levels, the client connection AES/CFB8-encrypted in a third of the cases (as for an online-mode player), chunked/coalesced writes, 1-70 packets per direction (unregistered ids, KeepAlive/BossBar/BundleDelimiter/ClientSettings pass-through; payload sizes 0..2^21-2 boundary-biased around both thresholds); non-trivial: >=10 packets in each direction, compression on at least one side and a payload at or above every enabled threshold",
 		c15Gen, c15Run)
 }
